@@ -32,6 +32,16 @@ class World:
 
         self.plan = plan
         self.control = bool(plan.get("control", False))
+        # the user has already used the Equinox RoPE layer eagerly (single precision) before the first
+        # conversion: Equinox keeps a process-wide table cache whose content depends on the precision of
+        # the FIRST eager use (measured: order of the user's own probes changes the bits), so without this
+        # the expectation would depend on the history's own probe order rather than on the converter
+        try:
+            import jax.numpy as _jnp
+
+            lib._rope()(_jnp.ones((6, 8), _jnp.float32))
+        except Exception:
+            pass
         self.ws = snapshot.WriteSet.take()
         self.base = snapshot.Snapshot.take()
         self.tables = snapshot.Tables.take()
@@ -154,7 +164,7 @@ def _eager_summary(fn: Any, xs: list, params: dict | None) -> dict:
 _DIGEST_MISMATCH = [0]  # outputs whose bits differ from the control interpreter's (whatever the verdict)
 
 
-def _eager_equal(a: dict, b: dict) -> tuple[bool, str]:
+def _eager_equal(a: dict, b: dict, strict: bool = False) -> tuple[bool, str]:
     if ("exc" in a) != ("exc" in b):
         return False, f"expected {a.get('exc') or 'values'}, got {b.get('exc') + ':' + b.get('msg', '') if 'exc' in b else 'values'}"
     if "exc" in a:
@@ -167,6 +177,8 @@ def _eager_equal(a: dict, b: dict) -> tuple[bool, str]:
         if x["digest"] == y["digest"]:
             continue
         _DIGEST_MISMATCH[0] += 1
+        if strict:
+            return False, f"out{i} bits differ ({x['digest']} vs {y['digest']}; sum {x['sum']} vs {y['sum']})"
         for key in ("sum", "absmax"):
             u, v = x[key], y[key]
             if u != u and v != v:
@@ -349,7 +361,12 @@ def _do_eager(w: World, op: dict, idx: int, log: EventLog, viol: list, stats: Co
     if w.control:
         w.eager_out.setdefault(key, got)
     elif exp is not None:
-        ok, msg = _eager_equal(exp, got)
+        n0 = _DIGEST_MISMATCH[0]
+        # fixture programs have fixed weights and inputs: eager XLA-CPU results are bit-stable across
+        # interpreters (measured), so any bit counts; registry programs keep the 1e-5 summary fallback
+        ok, msg = _eager_equal(exp, got, strict=pid.startswith("fx::c13::"))
+        if _DIGEST_MISMATCH[0] != n0:
+            stats[f"bitdiff:{pid}|{int(ambient)}"] += 1
         verdict = ok
         if pid in w.converted:
             stats["eager_probes_after_conversion_of_same_program"] += 1
@@ -383,7 +400,10 @@ def _do_eager(w: World, op: dict, idx: int, log: EventLog, viol: list, stats: Co
             else:
                 expj = w.expect.get(jkey)
                 if expj is not None:
-                    okj, msgj = _eager_equal(expj, gotj)
+                    n0 = _DIGEST_MISMATCH[0]
+                    okj, msgj = _eager_equal(expj, gotj, strict=True)
+                    if _DIGEST_MISMATCH[0] != n0:
+                        stats[f"bitdiff:{pid}|{int(ambient)}|jit"] += 1
                     if okj and expj.get("eval_shape") != gotj.get("eval_shape"):
                         okj, msgj = False, f"eval_shape {expj.get('eval_shape')} vs {gotj.get('eval_shape')}"
                     if not okj:
@@ -844,6 +864,7 @@ def main(tier: str) -> int:
                 "conversions_raised": stats.get("conversions_raised", 0),
                 "eager_probes": stats.get("eager_probes", 0),
                 "eager_outputs_bitwise_different_from_control": stats.get("eager_outputs_bitwise_different_from_control", 0),
+                "eager_bitwise_differences_by_probe": {k[8:]: v for k, v in stats.items() if k.startswith("bitdiff:")},
                 "eager_jit_and_eval_shape_probes_of_converted_callable": stats.get("eager_jit_probes", 0),
                 "eager_probes_after_conversion_of_same_program": stats.get("eager_probes_after_conversion_of_same_program", 0),
                 "full_sweeps": stats.get("full_sweeps", 0),
